@@ -175,7 +175,8 @@ def XmlDuration.ofString (e : Env) (s : Str) : Option (Str × TimeInterval) :=
 
 /-- `dates.days_from_civil` (Python floor division) -/
 def daysFromCivil (year month day : Int) : Int :=
-  let (y, m) := if month ≤ 2 then (year - 1, month + 12) else (year, month)
+  let y := if month ≤ 2 then year - 1 else year
+  let m := if month ≤ 2 then month + 12 else month
   365 * y + pyDiv y 4 - pyDiv y 100 + pyDiv y 400 + pyDiv (153 * (m - 3) + 2) 5 + day - 1
 
 /-- `_timeline` of an `XmlDateTime` -/
@@ -195,6 +196,7 @@ deriving DecidableEq, Repr
 
 def CmpOp.apply (op : CmpOp) (a b : Int) : Bool :=
   match op with
-  | .eq => a == b | .ne => a != b | .lt => a < b | .le => a ≤ b | .gt => a > b | .ge => a ≥ b
+  | .eq => decide (a = b) | .ne => decide (a ≠ b) | .lt => decide (a < b) | .le => decide (a ≤ b)
+  | .gt => decide (b < a) | .ge => decide (b ≤ a)
 
 end Xs.Dates
